@@ -146,8 +146,9 @@ func rejectErr() BErr { return BSmtp(550, [3]int{5, 7, 1}, "rejected by policy")
 func GenC02(rng *rand.Rand, thorough bool, emit func(*Sx)) {
 	type mode struct{ lmtp, sess bool }
 	modes := []mode{{false, false}, {true, false}, {true, true}}
+	// stop = -2 / -3 stand for "one / two octets short of the whole message" (resolved per body below)
 	plans := []DataPlan{}
-	for _, stop := range []int64{-1, 3, 0} {
+	for _, stop := range []int64{-1, 3, 0, -2, -3} {
 		for _, ret := range []BErr{BNil, rejectErr()} {
 			for _, prop := range []bool{true, false} {
 				p := DefaultPlan()
@@ -163,13 +164,25 @@ func GenC02(rng *rand.Rand, thorough bool, emit func(*Sx)) {
 			blen := len(unstuffed([]byte(body)))
 			limits := []int64{0}
 			if blen > 3 {
-				limits = append(limits, int64(blen-3), int64(blen), int64(blen+5))
+				limits = append(limits, int64(blen-3), int64(blen-2), int64(blen-1), int64(blen), int64(blen+1), int64(blen+5))
 			}
 			for _, lim := range limits {
-				for pi, p := range plans {
+				for pi, p0 := range plans {
+					p := p0
+					near := false // a backend that stops just short of the end, or a limit just below the size
+					if p.Stop <= -2 {
+						if blen < 4 {
+							continue
+						}
+						p.Stop = int64(blen) + p.Stop + 1
+						near = true
+					}
+					if lim == int64(blen-1) || lim == int64(blen-2) {
+						near = true
+					}
 					for seg := 0; seg < 4; seg++ {
 						n++
-						if !thorough && (n+bi+pi)%5 != 0 {
+						if !thorough && (n+bi+pi)%5 != 0 && !(near && seg == bi%4 && bi < 7) {
 							continue
 						}
 						if seg == 2 && len(body) > 200 {
